@@ -415,7 +415,7 @@ fn run(args: &[String]) {
     }
 
     // 2. exploration
-    let per_pair = if thorough { 400 } else { 10 };
+    let per_pair = if thorough { 120 } else { 10 };
     let mut st = seed ^ 0xC17;
     let mut jobs: Vec<RunCfg> = vec![];
     for (ci, c) in cs.iter().enumerate() {
